@@ -9,6 +9,7 @@ package state
 import (
 	"errors"
 	"fmt"
+	"strconv"
 	"strings"
 	"time"
 
@@ -128,7 +129,7 @@ func c06Params(p tmproto.ConsensusParams) string {
 
 func c06State(t *c06Ids, s State) string {
 	return vg.App("St",
-		vg.Tup(vg.Z(int64(s.Version.Consensus.Block)), vg.Z(int64(s.Version.Consensus.App))),
+		vg.Tup(c06U64(s.Version.Consensus.Block), c06U64(s.Version.Consensus.App)),
 		t.hv([]byte(s.ChainID)), vg.Z(s.InitialHeight), vg.Z(s.LastBlockHeight), t.bid(s.LastBlockID),
 		c06T(s.LastBlockTime), c06Vals(t, s.NextValidators), c06Vals(t, s.Validators), c06Vals(t, s.LastValidators),
 		vg.Z(s.LastHeightValidatorsChanged), c06Params(s.ConsensusParams), vg.Z(s.LastHeightConsensusParamsChanged),
@@ -156,9 +157,12 @@ func c06StateDescr(s State) string {
 func c06Header(t *c06Ids, h *types.Header) string {
 	hs := []string{t.hv(h.LastCommitHash), t.hv(h.DataHash), t.hv(h.ValidatorsHash), t.hv(h.NextValidatorsHash),
 		t.hv(h.ConsensusHash), t.hv(h.AppHash), t.hv(h.LastResultsHash), t.hv(h.EvidenceHash), t.hv(h.ProposerAddress)}
-	return vg.Tup(vg.Z(int64(h.Version.Block)), vg.Z(int64(h.Version.App)), t.hv([]byte(h.ChainID)), vg.Z(h.Height),
+	return vg.Tup(c06U64(h.Version.Block), c06U64(h.Version.App), t.hv([]byte(h.ChainID)), vg.Z(h.Height),
 		c06T(h.Time), t.bid(h.LastBlockID), vg.L(hs))
 }
+
+// a uint64 as a Coq Z, exact above MaxInt64 too
+func c06U64(x uint64) string { return strconv.FormatUint(x, 10) + "%Z" }
 
 // c06Commit is a commit together with what every slot's signature was made over (Coq sdesc
 // terms with the key still symbolic: "B"/"N"/"G" + key + timestamp), and the base the honest
